@@ -320,12 +320,30 @@ func visitInstr(fr *frame, instr ssa.Instruction) continuation {
 		idx := fr.get(instr.Index)
 		switch x := x.(type) {
 		case []value:
+			if si, isSym := idx.(*Sym); isSym && onlyLoaded(instr) {
+				fr.i.checkIndexRange(si, len(x))
+				if v, ok := fr.i.symSelect(x, si); ok {
+					cell := new(value)
+					*cell = v
+					fr.env[instr] = cell
+					break
+				}
+			}
 			fr.env[instr] = &x[fr.i.checkIndex(idx, len(x))]
 		case *value: // *array
 			if x == nil {
 				panic(goPanic("runtime error: invalid memory address or nil pointer dereference"))
 			}
 			a := (*x).(array)
+			if si, isSym := idx.(*Sym); isSym && onlyLoaded(instr) {
+				fr.i.checkIndexRange(si, len(a))
+				if v, ok := fr.i.symSelect(a, si); ok {
+					cell := new(value)
+					*cell = v
+					fr.env[instr] = cell
+					break
+				}
+			}
 			fr.env[instr] = &a[fr.i.checkIndex(idx, len(a))]
 		default:
 			panic(fmt.Sprintf("unexpected x type in IndexAddr: %T", x))
@@ -337,6 +355,13 @@ func visitInstr(fr *frame, instr ssa.Instruction) continuation {
 
 		switch x := x.(type) {
 		case array:
+			if si, isSym := idx.(*Sym); isSym {
+				fr.i.checkIndexRange(si, len(x))
+				if v, ok := fr.i.symSelect(x, si); ok {
+					fr.env[instr] = v
+					break
+				}
+			}
 			fr.env[instr] = x[fr.i.checkIndex(idx, len(x))]
 		case string:
 			fr.env[instr] = x[fr.i.checkIndex(idx, len(x))]
